@@ -198,8 +198,25 @@ def failure_edge_is_absent(F, ev, body, sw_block, fail_target, ok_targets, roles
     else:
         cw = []
     if cw:
-        some_blocks = [b for (b, si, kind, v, s) in cw if kind != "none"]
-        none_blocks = [b for (b, si, kind, v, s) in cw if kind == "none"]
+        # what each write stores ON PATHS THROUGH THE FAILURE EDGE (a single `cache = match r { Ok => compute(), Err => None }`
+        # stores None there although the statement also stores Some on other paths)
+        region0 = reach
+        env_f = Env(body)
+        env_f.pred_filter = lambda p, b, region=region0: not (b in region and p not in region and (p, b) != (sw_block, fail_target))
+        ev_f = Eval(F, opaque=ev.opaque)
+        kinds = {}
+        for (b, si, kind, v, s) in cw:
+            if b not in reach or kind == "partial":
+                continue
+            if (b, si) in kinds:
+                continue
+            try:
+                vf = ev_f.rvalue(env_f, s["rv"], (b, si))
+            except RecursionError:
+                vf = v
+            kinds[(b, si)] = "none" if (vf is not None and (vf[0] == "none" or is_absent_value(vf))) else "some"
+        some_blocks = [b for (b, si, kind, v, s) in cw if (kinds.get((b, si)) == "some") or (b not in reach and kind != "none")]
+        none_blocks = [b for (b, si, kind, v, s) in cw if kinds.get((b, si)) == "none" or (b not in reach and kind == "none")]
         bad = [b for b in some_blocks if b in reach]
         if bad:
             s = [x for x in cw if x[0] == bad[0]][0][4]
@@ -333,8 +350,8 @@ def rule_jac_absent(F, ev, R, config, rule="R-JAC-ABSENT"):
                     if contains(inner, lambda x: x[0] == "field" and x[2] == roles["cache"]):
                         variants, _, _ = discr_variants(sw.get("body", b), sw["block"])
                         names = dict(variants or [])
-                        if isinstance(vals, tuple) and all(names.get(v) == "Some" for v in vals if v != "otherwise") and vals:
-                            found = True
+                        if isinstance(vals, tuple) and all(names.get(v) in ("Some", "Continue", "Ok") for v in vals if v != "otherwise") and vals:
+                            found = True   # `if let Some(c) = cache`, `match`, or `let c = cache.as_ref()?` (Continue edge of `?`)
             R.add(rule, config, b.key, "needs-cache@%s" % fl, found,
                   "" if found else "Some(J) is not dominated by a test that the cache is present", s.get("span"))
 
